@@ -78,6 +78,9 @@ def gen_run_cfg(r, i):
         cfg.update(like_cut=float(r.choice([0.3, 0.6])), prop_mu=0.0, prop_sigma=2.0, like_center=1.5, like_width=1.0)
     elif m == 2:
         cfg.update(min_step=float(r.choice([0.02, 0.2])))
+    # the populations live in any of the three array namespaces (the step rule reads their log-densities through the namespace's own
+    # reductions - torch's `var` is the unbiased one, its `max` returns a pair, ...)
+    cfg["ns"] = ("numpy", "torch", "jax", "numpy", "torch")[(i // 4) % 5]
     return cfg
 
 
